@@ -77,7 +77,7 @@ Examples:
 func init() {
 	saveCmd.Flags().StringSliceP("keywords", "k", nil, "Keywords for the command (comma-separated)")
 	saveCmd.Flags().StringP("category", "c", "", "Category/niche for the command")
-	saveCmd.Flags().StringSliceP("platforms", "p", nil, "Supported platforms (comma-separated)")
+	saveCmd.Flags().StringSliceP("platforms", "", nil, "Supported platforms (comma-separated)")
 	saveCmd.Flags().BoolP("pipeline", "", false, "Mark as a pipeline command")
 }
 
